@@ -61,7 +61,7 @@ Definition smv_add (m : smv) (x : f64) : smv * (f64 * bool) :=
   let variance := sm_value var1 in
   let stdev := fsqrt variance in
   let norm := if fneq stdev zero then div (sub x mean) stdev else mv_norm m in
-  let changed := fneq stdev (mv_stdev m) || fneq norm (mv_norm m) in
+  let changed := fneq variance (sm_value (mv_var m)) || fneq stdev (mv_stdev m) || fneq norm (mv_norm m) in
   ({| mv_avg := avg1; mv_var := var1; mv_stdev := stdev; mv_norm := norm |}, (stdev, changed)).
 Definition smv_get (m : smv) : f64 := sm_value (mv_var m).
 Definition smv_reset (m : smv) : smv :=
